@@ -1,26 +1,197 @@
-//! C09: not implemented yet.
+//! C09: ABI encoding is canonical and round-trips.
+//!
+//! Generated type trees (depth <= 4) with boundary-biased values are printed into Sway scripts;
+//! the scripts are compiled (debug and release) and run in the FuelVM. Every observed
+//! ReturnData / LogData payload is compared with two reference codecs: a canonical encoder
+//! written from the ABI specification and fuels-core's ABIEncoder/ABIDecoder driven by the JSON
+//! ABI the build emitted (function inputs, output and loggedTypes). Decoding is exercised through
+//! script data (entry point `decode_script_data`), through `abi_decode::<T>(raw_slice)` on
+//! canonical bytes, and through the in-VM round trip `abi_decode::<T>(encode(v)) == v`.
 use crate::common::*;
+use crate::engine::*;
 use crate::{Plan, Prop};
+use rand::Rng;
+use serde_json::Value;
+
+#[path = "c09_abi.rs"]
+pub mod abi;
+use abi::*;
 
 pub static META: PropertyMeta = PropertyMeta {
     id: "C09",
     level: "exploration",
-    rule: "not implemented",
-    assumptions: &[],
-    floor_evaluations: 1,
-    floor_nontrivial: 2,
-    required_counters: &[],
+    rule: "one evaluation = one VM execution of a generated script (one type, one value, one mode in {literal return+log, echo of decoded script data, in-VM round trip, abi_decode of canonical bytes, whole-signature entry}) in one profile whose return data and log data were compared with both reference codecs; non-trivial = the type tree has depth >= 2; distinct = hash of (type tree, value)",
+    assumptions: &[
+        "fuel-vm 0.66 is the trusted execution substrate",
+        "fuels-core 0.77 ABIEncoder/ABIDecoder and fuel-abi-types are the trusted SDK-side codec; a disagreement between it and the harness's own canonical encoder is reported as inconclusive, not as a violation",
+        "text values are ASCII (fuels-core rejects non-ASCII str/str[N]); Vec/Bytes/str lengths <= 13, type depth <= 4",
+    ],
+    floor_evaluations: 2000,
+    floor_nontrivial: 100,
+    required_counters: &["programs_universe", "programs_mono", "returns_equal", "logs_compared", "decode_path_executions", "in_vm_eq_true", "bytes_compared", "runs_roundtrip", "entry_decode_trivial_path", "entry_decode_nontrivial_path"],
 };
 
 pub static PROP: Prop = Prop {
     meta: &META,
-    plan: |_t| Plan { nshards: 1, budget_s: 1.0, mem_gib: 0 },
-    shard: |_ctx| {
-        let mut r = ShardResult::default();
-        r.harness_fault = Some("not implemented".into());
-        r
-    },
-    replay: crate::no_replay,
+    plan: |t| Plan { nshards: 16, budget_s: t.pick(60.0, 960.0), mem_gib: 6 },
+    shard,
+    replay,
     extra: crate::no_extra,
-    subcommand: crate::no_subcommand,
+    subcommand,
 };
+
+pub fn params_for(tier: Tier, rng: &mut rand::rngs::StdRng, c10: bool) -> GenParams {
+    let mono = rng.gen_bool(0.45);
+    if mono {
+        GenParams { c10, mono, ntypes: *choose(rng, &[1usize, 1, 1, 2, 2, 3]), nvals: tier.pick(3, 5), ncorrupt: tier.pick(3, 6), nrandom: tier.pick(2, 4), force_words: false }
+    } else {
+        GenParams { c10, mono, ntypes: rng.gen_range(tier.pick(6, 8)..=tier.pick(10, 12)), nvals: tier.pick(3, 4), ncorrupt: tier.pick(3, 5), nrandom: tier.pick(2, 3), force_words: false }
+    }
+}
+
+/// the case of (seed, shard, index)
+pub fn spec_at(tier: Tier, seed: u64, shard: u64, index: u64, c10: bool) -> Spec {
+    let mut rng = rng_for(seed, shard, index);
+    let mut p = params_for(tier, &mut rng, c10);
+    if index % 6 == 0 {
+        // anchor cases: `main(T) -> T` over word-only material, so that the trivially
+        // encodable / decodable entry paths are exercised in every shard
+        p.mono = true;
+        p.ntypes = 1;
+        p.force_words = true;
+    }
+    gen_spec(&mut rng, &p)
+}
+
+pub fn shard_loop(ctx: &ShardCtx, c10: bool) -> ShardResult {
+    let mut res = ShardResult::default();
+    let mut am = Amortised::new(&ctx.work());
+    if let Err(e) = am.warm() {
+        res.harness_fault = Some(format!("std does not compile: {e}"));
+        return res;
+    }
+    // the budget is spent on cases: the one-off std compilation (about 6 s on an idle machine, far
+    // more on a loaded one) is accounted with a fixed allowance instead of its wall time
+    let clock = std::time::Instant::now();
+    let case_budget = ctx.budget.saturating_sub(std::time::Duration::from_secs(if ctx.first_index == 0 { 6 } else { 6 + ctx.start.elapsed().as_secs().min(6) }));
+    let mut i = ctx.first_index;
+    while clock.elapsed() < case_budget {
+        let spec = spec_at(ctx.tier, ctx.seed, ctx.shard, i, c10);
+        let src = print_program(&spec);
+        journal_current(ctx, &src);
+        check_spec(&mut am, &spec, &mut res, Some((ctx, i)));
+        i += 1;
+    }
+    res
+}
+
+fn shard(ctx: &ShardCtx) -> ShardResult {
+    shard_loop(ctx, false)
+}
+
+pub fn replay_spec(case: &Value, prop: &str) -> ShardResult {
+    let mut res = ShardResult::default();
+    let Some(spec) = case.get("spec").and_then(|s| serde_json::from_value::<Spec>(s.clone()).ok()) else {
+        res.harness_fault = Some("replay file has no program specification".into());
+        return res;
+    };
+    let work = work_dir(prop).join("replay");
+    clean_dir(&work);
+    let mut am = Amortised::new(&work);
+    check_spec(&mut am, &spec, &mut res, None);
+    res
+}
+
+fn replay(case: &Value) -> ShardResult {
+    replay_spec(case, "C09")
+}
+
+/// `swverif abiprobe <file.sw> [hex script data]...`: like `probe`, in a private directory, and
+/// prints the JSON ABI types of main and of the logged types.
+/// `swverif abigen <c09|c10> <seed> <shard> <index>`: print the generated program of a case.
+fn subcommand(args: &[String]) -> Option<i32> {
+    match args.first().map(|s| s.as_str()) {
+        Some("abigen") => {
+            let c10 = args[1] == "c10";
+            let n: Vec<u64> = args[2..5].iter().map(|s| s.parse().expect("number")).collect();
+            let tier = if args.get(5).map(|s| s.as_str()) == Some("thorough") { Tier::Thorough } else { Tier::Quick };
+            let spec = spec_at(tier, n[0], n[1], n[2], c10);
+            println!("{}", print_program(&spec));
+            Some(0)
+        }
+        Some("abireduce") => {
+            // abireduce <c09|c10> <seed> <shard> <index> <quick|thorough> <reject|violation> <fragment>
+            let c10 = args[1] == "c10";
+            let n: Vec<u64> = args[2..5].iter().map(|s| s.parse().expect("number")).collect();
+            let tier = if args[5] == "thorough" { Tier::Thorough } else { Tier::Quick };
+            let kind = args[6].clone();
+            let frag = args.get(7).cloned().unwrap_or_default();
+            let spec = spec_at(tier, n[0], n[1], n[2], c10);
+            let work = work_dir("C09").join(format!("reduce{}", std::process::id()));
+            clean_dir(&work);
+            let mut am = Amortised::new(&work);
+            let mut interesting = |s: &Spec| -> bool {
+                let mut res = ShardResult::default();
+                check_spec(&mut am, s, &mut res, None);
+                match kind.as_str() {
+                    "reject" => res.inconclusive_notes.iter().any(|n| n.contains("rejected") && n.contains(&frag)),
+                    _ => res.violations.iter().any(|v| v.signature.contains(&frag)),
+                }
+            };
+            if !interesting(&spec) {
+                println!("the original case does not show the behaviour");
+                return Some(1);
+            }
+            let red = reduce_spec(spec, &mut interesting);
+            let mut res = ShardResult::default();
+            check_spec(&mut am, &red, &mut res, None);
+            println!("{}", print_program(&red));
+            for v in res.violations.iter().take(6) {
+                println!("// {} :: {}", v.signature, v.description);
+            }
+            for n in res.inconclusive_notes.iter().take(3) {
+                println!("// inconclusive: {n}");
+            }
+            println!("// spec: {}", serde_json::to_string(&red).unwrap());
+            let _ = std::fs::remove_dir_all(&work);
+            Some(0)
+        }
+        Some("abiprobe") => {
+            let src = std::fs::read_to_string(&args[1]).expect("read source");
+            let work = work_dir("C09").join(format!("probe{}", std::process::id()));
+            clean_dir(&work);
+            let mut am = Amortised::new(&work);
+            for profile in Profile::BOTH {
+                match am.compile("abicase", &src, profile) {
+                    Err(e) => {
+                        let dir = am.last_dir();
+                        println!("{}: compile failed: {e}: {}", profile.name(), first_error(&mut am, &dir, profile));
+                    }
+                    Ok(c) => {
+                        if profile == Profile::Debug {
+                            match abi_view(&c.pkg.program_abi) {
+                                Ok(a) => {
+                                    println!("abi inputs: {:?}", a.inputs);
+                                    println!("abi output: {:?}", a.output);
+                                    let mut l: Vec<_> = a.logged.iter().collect();
+                                    l.sort_by_key(|x| *x.0);
+                                    for (id, t) in l {
+                                        println!("abi log {id}: {t:?}");
+                                    }
+                                }
+                                Err(e) => println!("abi unreadable: {e}"),
+                            }
+                        }
+                        let datas: Vec<Vec<u8>> = if args.len() > 2 { args[2..].iter().map(|h| hex::decode(h).expect("hex")).collect() } else { vec![vec![]] };
+                        for d in datas {
+                            println!("{} {} -> {}", profile.name(), hex::encode(&d), run_script(&c.pkg.bytecode.bytes, &d).short());
+                        }
+                    }
+                }
+            }
+            let _ = std::fs::remove_dir_all(&work);
+            Some(0)
+        }
+        _ => None,
+    }
+}
